@@ -25,7 +25,11 @@ def h2hdrs (args : List String) : String :=
     match bytesOfHex m, bytesOfHex s, bytesOfHex t, parseHeaders hs with
     | some m, some s, some t, some hs =>
       match h2Headers m s t hs with
-      | some (l, e) => s!"headers={showHeaders l} end={if e then 1 else 0}"
+      | some (l, e) =>
+        let v := if h2Crashes l then "crash" else
+          match h2SendHead Gen.h2ValidatesOutbound m s t hs with
+          | .rejected => "rejected" | _ => "sent"
+        s!"headers={showHeaders l} end={if e then 1 else 0} h2={v} illegal={if h2Refuses l then 1 else 0}"
       | none => "err=IndexError"
     | _, _, _, _ => "bad-args"
   | _ => "bad-args"
